@@ -25,6 +25,14 @@ CHECKS = {
             "TLA+ spec RtmpTxnConc.tla (writer/reader/peer processes; register-before-write) model-checked by TLC over all interleavings; TLC schedules forced onto the real code with a gated transport; free-running -race executions validated as traces against Trace_RtmpTxnConc.tla",
             "TLC explores every interleaving of the writer's steps, the peer's (possibly duplicated) responses and the reader's read/lookup for up to 3 requests (NoSpurious, MatchOnce, NoLoss; the register-after-write deviation yields the 5-step counterexample); every schedule is forced deterministically onto a real rtmp.Protocol (gates, no sleeps) and each lookup outcome compared; recorded free-running executions under the race detector are accepted by the trace specification only if a registration point before the transport write explains every lookup result; a corrupted trace is shown to be rejected",
             "trusts TLC, the gated transport and the event log order (log and peer writes under one mutex); register/transport-write entry and read/lookup are adjacent in forced schedules; stress covers the runtime's interleavings over seeds", "5/C04"),
+    "C05": ("model_checking",
+            "TLA+ spec Amf0.tla (StrictKeyed layout; encoder, byte-level decoder, API-shaped builder state machine) model-checked by TLC incl. named deviations; TLC-enumerated and simulated trees replayed into the amf0 package",
+            "TLC checks on the specification that size, round trip, consumed = Size(), alignment of the following value and canonical re-marshal hold for every New/Set behaviour and raw pair list within bounds; every enumerated or simulated tree is built through the public API and marshalled, decoded, walked and re-marshalled by the real library - also with repeated keys, trailing bytes and a following value located by Size() - against the specification's bytes",
+            "trusts TLC, the LD expander and the transcription of amf0_spec_121207 plus the library's keyed strict-array convention; names/strings are byte patterns; depth 2 (quick) / 4 (thorough)", "5/C05"),
+    "C06": ("model_checking",
+            "same module Amf0.tla with the AMF0 specification's strict-array layout as the independent encoder/decoder (evaluated by TLC); all 256 markers in 5 positions; known deviation StrictKeyed predicted by the spec",
+            "library bytes equal the specification's Enc(v) and the library decodes Enc(v) to v for every generated tree incl. FFmpeg/Flash metadata; Discovery class and decode/no-decode match for all 256 markers in every position; trees with non-empty strict arrays are classified as the known finding only if both encoder and decoder behave exactly as the specification's StrictKeyed prediction, anything else is a violation",
+            "the independent implementation is the TLA+ spec evaluated by TLC; strict-array elements have no positional accessor (compared through bytes)", "5/C06"),
     "C09": ("model_checking",
             "TLA+ spec FlvFile.tla: mux/transport/demux state machine with byte-level reference decoder, TLC invariants and two named deviations; TLC-generated files and seeded walks replayed into the flv muxer/demuxer, layout from the spec as oracle",
             "TLC explores every interleaving of muxer calls, segment deliveries and demuxer calls for all flag combinations and small tag lists (Layout, RefDec, Prefix, Final, Framing, Monotone); the boundary matrix (sizes to 2^24-1, timestamps around 2^24/2^32-1) is enumerated and each file is replayed: library bytes must equal the specification's byte for byte, and the demuxer must return the same tags from library-written and spec-written bytes under whole/1-byte/random segmentation",
@@ -45,6 +53,10 @@ CHECKS = {
             "TLA+ spec Avc.tla (TLC: round-trip/reserved-bit invariants) + TLC-enumerated cases replayed into avc package, ISO layout from the spec as oracle",
             "TLC exhaustively checks the AVC container spec (records, samples, NAL units) for self-consistency on small values, enumerates the boundary value matrix, and every enumerated value is replayed into the real marshal/unmarshal code with the spec's byte layout as the independent oracle",
             "trusts TLC, the LD expander and the transcription of ISO/IEC 14496-15 5.2.4.1 in Avc.tla; payloads are patterns", "5/C12"),
+    "C20": ("model_checking",
+            "TLA+ spec Kxps.tla (three windows, cascade, average, started flag; Observe/Start/ReadRate actions) model-checked by TLC with five named deviations; exhaustive and simulated behaviours replayed into the real meter with an injected clock (identity and x2^48 counter embeddings, public Kbps/Krps)",
+            "for every (time, counter) history within the bounds the 10/30/300 s rates equal growth since that window's previous sample divided by the window length (kbit/s-scaled for Kbps), stalls and decreases give 0, the average equals growth since the first non-zero observation over elapsed time, every value is finite and non-negative, and reads before Start are refused; histories include stalls, decreases, resets, wrap-around and the int64 sign boundary",
+            "trusted base: kxps/verif_export.go hook (sampling step with injected clock); windows not consulted by the library's cascade are not judged; Average() via a monotonic-clock bracket", "5/C20"),
 }
 
 NOT_YET = "check not built yet in this revision of /verif (work in progress; see DESIGN.md section 5)"
